@@ -51,6 +51,26 @@ theorem raises_return_without_gosub (code : List Instr) (s : St) (h : s.gosubs =
     execStmt code s .ret = .raise E.return_without_gosub s := by
   simp [execStmt, h]
 
+/-- a fault inside the body of a user function (all functions of the call chain defined) is raised by the
+    CALLING statement, like any other error of that statement -/
+theorem raises_in_user_function (code : List Instr) (s : St) (ks : List Nat) (v e : Nat)
+    (hd : ks.all s.defs = true) (h : s.flags v = false) :
+    execStmt code s (.fnc ks v e) = .raise e s := by
+  simp [execStmt, hd, h]
+
+theorem raises_undefined_user_function (code : List Instr) (s : St) (ks : List Nat) (v e : Nat)
+    (hd : ks.all s.defs = false) :
+    execStmt code s (.fnc ks v e) = .raise E.undefined_user_function s := by
+  simp [execStmt, hd]
+
+theorem raises_def_fn_in_direct_line (code : List Instr) (s : St) (k : Nat) (h : s.run = false) :
+    execStmt code s (.defFn k) = .raise E.illegal_direct s := by
+  simp [execStmt, h]
+
+theorem raises_in_for_expression (code : List Instr) (s : St) (v e : Nat) (h : s.flags v = false) :
+    execStmt code s (.forc v e) = .raise e s ∧ execStmt code s .nextq = .raise E.next_without_for s := by
+  simp [execStmt, h]
+
 /-! ## the trap -/
 
 /-- With ON ERROR GOTO n active (and not already inside a handler) ANY raised error jumps to the first
@@ -68,7 +88,7 @@ theorem trap_sets_err_erl (fixed : Bool) (code : List Instr) (dl : List Stmt) (s
       s'.gosubs = s.gosubs ∧ s'.out = s.out ∧ s'.onErr = s1.onErr := by
   obtain ⟨hr, hp, hg, ho⟩ := raise_keeps hx
   have hstep : step fixed code dl s = .running
-      { run := true, pc := j, flags := s1.flags, g := s1.g, gosubs := s1.gosubs, onErr := s1.onErr,
+      { run := true, pc := j, flags := s1.flags, defs := s1.defs, g := s1.g, gosubs := s1.gosubs, onErr := s1.onErr,
         handling := true, resume := some (s1.run, s1.pc), errNum := e, errPos := curPos s1,
         softRaise := s1.softRaise, out := s1.out } := by
     simp only [step, hf, hx, trap, hon, hh, hj, ne_eq, not_false_eq_true, and_self, if_true]
@@ -205,6 +225,23 @@ theorem message_line (p : List Line) (i k : Nat) (hi : i < p.length) (hk : k < p
     (hnum : p[i].num < 65535) :
     msgLine (flatten p) (.prog (posOf p i k)) = some p[i].num ∧ msgLine (flatten p) .direct = none := by
   simp [msgLine, lineOf_flatten p i k hi hk, hnum]
+
+/-- An untrapped fault inside a DEF FN body, called from statement k of line i (any line, any statement
+    index; the DEF FN line is elsewhere): the program stops with that error and the message names line i
+    — the line of the calling statement, not the DEF FN line. -/
+theorem fn_error_names_calling_line (fixed : Bool) (p : List Line) (dl : List Stmt) (s : St)
+    (ks : List Nat) (v e i k : Nat) (hi : i < p.length) (hk : k < p[i].stmts.length) (hnum : p[i].num < 65535)
+    (hrun : s.run = true) (hpc : s.pc = posOf p i k) (hst : p[i].stmts[k] = .fnc ks v e)
+    (hd : ks.all s.defs = true) (hv : s.flags v = false) (hon : s.onErr = 0) :
+    ∃ s', step fixed (flatten p) dl s = .stopped e (.prog (posOf p i k)) s' ∧
+      msgLine (flatten p) (.prog (posOf p i k)) = some p[i].num ∧
+      erlVal (flatten p) s'.errPos = (p[i].num : Int) := by
+  have hf : fetch (flatten p) dl s = some (.fnc ks v e) := by
+    simp only [fetch, hrun, if_true, hpc, stmt_flatten p i k hi hk, hst]
+  obtain ⟨s', h1, _, h3, _⟩ := untrapped_reports_line fixed (flatten p) dl s s (.fnc ks v e) e hf
+    (raises_in_user_function _ s ks v e hd hv) hon
+  simp only [hrun, if_true, hpc] at h1 h3
+  exact ⟨s', h1, (message_line p i k hi hk hnum).1, by simp [h3, erlVal, lineOf_flatten p i k hi hk]⟩
 
 /-- ON ERROR GOTO 0 inside the handler re-raises the trapped error: the program stops with the ORIGINAL
     error number and position, and trapping is off. -/
